@@ -130,6 +130,10 @@ func (r *run) playScript(lines []string) {
 		case "skew":
 			r.slog(l)
 			r.setSkew(tok[1])
+		case "seq0":
+			n, _ := strconv.ParseInt(tok[1], 10, 64)
+			r.slog(l)
+			r.setSeq0(n)
 		case "auto", "auto-step":
 			// a lock waiter that got the lock (afterUnlock) / the overtaker's steps after a probe that
 			// got through (doProbe): both happen by themselves on replay, nothing to execute
@@ -194,19 +198,35 @@ func (r *run) playRandom(g *vc.Rng) {
 	tokenBase := int64(r.idx%1000)*1000 + 10
 	ntok := int64(0)
 	service := g.Intn(4) // budget of unsolicited service messages
-	nextSid := int64(0)
+	// server msg ids as a server makes them: unix time << 32 | something, low two bits 01 (answer) or 11
+	// (notification): beyond 2^32 and 2^53, bit 63 clear
+	nextSid := r.t0.Unix()<<32 | int64(g.Intn(1<<20))<<8
 	sid := func(answer bool) int64 {
-		nextSid += 4
+		nextSid += 4 * int64(1+g.Intn(1000))
+		nextSid &^= 3
 		if answer {
 			return nextSid + 1
 		}
 		return nextSid + 3
+	}
+	sseq := func(odd bool) int32 {
+		v := int32(2 * g.Intn(1<<24))
+		if odd {
+			v |= 1
+		}
+		return v
 	}
 	pGz := 10 + g.Intn(40)
 	// clock regime of this schedule (see setSkew) and budget of lock probes
 	mode := []string{"none", "none", "ahead1m", "ahead1h", "just4"}[g.Intn(5)]
 	r.slog("skew " + mode)
 	r.setSkew(mode)
+	if g.Intn(8) == 0 {
+		// the session's seq_no counter starts 8 below 2^31: it wraps during the run
+		r.slog("seq0 2147483640")
+		r.setSeq0(2147483640)
+	}
+	dups := g.Intn(3) // budget of answers nobody waits for (repeated / for an id never used)
 	probes := 0
 	if g.Intn(3) == 0 {
 		probes = 1 + g.Intn(2)
@@ -240,7 +260,7 @@ func (r *run) playRandom(g *vc.Rng) {
 		}
 		var open []*callState // received by the server, not yet answered
 		for _, c := range r.callers {
-			if c.active != nil && c.active.frame >= 0 && c.active.answers == 0 {
+			if c.active != nil && c.active.frame >= 0 && !c.active.delivered {
 				open = append(open, c.active)
 			}
 		}
@@ -250,12 +270,15 @@ func (r *run) playRandom(g *vc.Rng) {
 		if service > 0 {
 			acts = append(acts, act{kind: "svc"})
 		}
+		if dups > 0 && r.nframes > 0 {
+			acts = append(acts, act{kind: "dup"})
+		}
 		if len(acts) == 0 {
 			break
 		}
 		onlySvc := true
 		for _, a := range acts {
-			if a.kind != "svc" {
+			if a.kind != "svc" && a.kind != "dup" {
 				onlySvc = false
 			}
 		}
@@ -299,63 +322,97 @@ func (r *run) playRandom(g *vc.Rng) {
 		case "svc":
 			service--
 			b := &bodySpec{op: []string{"pong", "ack", "newsess", "upd"}[g.Intn(4)]}
-			seq := int32(2 * g.Intn(50))
-			if b.op == "newsess" || b.op == "upd" {
-				seq |= 1
-			}
+			seq := sseq(b.op == "newsess" || b.op == "upd")
 			if b.op == "newsess" {
 				b.salt = int64(1000 + g.Intn(1000))
 			}
 			s := sid(false)
 			r.slog(fmt.Sprintf("srv %d %d %s", s, seq, b.script()))
 			r.doSrv(s, seq, b)
-		case "srv":
-			// answer a random non-empty subset of the open requests, in random order
+		case "srv", "dup":
+			// answer a random non-empty subset of the open requests, in random order ("dup": none of them)
 			for i := len(open) - 1; i > 0; i-- {
 				j := g.Intn(i + 1)
 				open[i], open[j] = open[j], open[i]
 			}
-			k := 1 + g.Intn(len(open))
-			if k > 3 {
-				k = 3
+			k := 0
+			if a.kind == "srv" {
+				k = 1 + g.Intn(len(open))
+				if k > 3 {
+					k = 3
+				}
+			}
+			mkres := func(cs *callState, token int64, kind string) *bodySpec {
+				b := &bodySpec{op: "res", ref: fmt.Sprintf("@%d.%d", cs.t, cs.k), kind: kind, tok: token, gz: g.Intn(100) < pGz}
+				if kind == "err" {
+					b.op = "err"
+				}
+				return b
 			}
 			var bodies []*bodySpec
 			for _, cs := range open[:k] {
-				t := -1
-				for ti, c := range r.callers {
-					if c.active == cs {
-						t = ti
+				if !cs.spec.hinted && g.Intn(12) == 0 {
+					// a Vector<> for a call that declared none: cannot be decoded, must be skipped (and acknowledged)
+					bodies = append(bodies, mkres(cs, cs.spec.token+2, "vecbare"))
+				}
+				bodies = append(bodies, mkres(cs, cs.spec.token, cs.spec.kind))
+			}
+			// answers nobody waits for: a repeated result (same or different payload) for a request that has
+			// been answered already - its caller may have returned long ago -, a result for an id never used
+			var answered []*callState
+			for _, c := range r.callers {
+				for _, cs := range c.calls {
+					if cs.delivered {
+						answered = append(answered, cs)
 					}
 				}
-				b := &bodySpec{op: "res", ref: fmt.Sprintf("@%d.%d", t, cs.k), kind: cs.spec.kind, tok: cs.spec.token, gz: g.Intn(100) < pGz}
-				if cs.spec.kind == "err" {
-					b.op = "err"
+			}
+			if dups > 0 && (a.kind == "dup" || g.Intn(3) == 0) {
+				dups--
+				var x *bodySpec
+				if len(answered) > 0 && g.Intn(4) != 0 {
+					cs := answered[g.Intn(len(answered))]
+					x = mkres(cs, cs.spec.token+int64(g.Intn(2)), cs.spec.kind)
+				} else {
+					x = &bodySpec{op: "res", ref: "2", kind: "obj", tok: 999, gz: g.Intn(4) == 0}
 				}
-				bodies = append(bodies, b)
+				at := g.Intn(len(bodies) + 1) // before, between or after the wanted results
+				bodies = append(bodies[:at], append([]*bodySpec{x}, bodies[at:]...)...)
+			}
+			if len(bodies) == 0 {
+				break
 			}
 			var top *bodySpec
-			seq := int32(2*g.Intn(50)) | 1
-			form := g.Intn(10)
+			seq := sseq(true)
+			form := g.Intn(12)
 			switch {
-			case k == 1 && form < 5:
+			case len(bodies) == 1 && form < 5:
 				top = bodies[0]
-			case k == 1 && form < 6:
+			case len(bodies) == 1 && form < 6:
 				top = &bodySpec{op: "gz", inner: bodies[0]}
 			default:
 				top = &bodySpec{op: "cont"}
 				for _, b := range bodies {
 					if g.Intn(4) == 0 {
 						sb := &bodySpec{op: []string{"pong", "ack", "upd"}[g.Intn(3)]}
-						sq := int32(2 * g.Intn(50))
-						if sb.op == "upd" {
-							sq |= 1
-						}
-						top.items = append(top.items, itemSpec{sid: sid(false), seq: sq, body: sb})
+						top.items = append(top.items, itemSpec{sid: sid(false), seq: sseq(sb.op == "upd"), body: sb})
 					}
-					top.items = append(top.items, itemSpec{sid: sid(true), seq: int32(2*g.Intn(50)) | 1, body: b})
+					if g.Intn(6) == 0 {
+						b = &bodySpec{op: "gz", inner: b} // the whole item gzip-packed
+					}
+					top.items = append(top.items, itemSpec{sid: sid(true), seq: sseq(true), body: b})
+				}
+				if form == 10 && len(top.items) >= 1 {
+					// container nested in a container: the first items move one level down
+					n := 1 + g.Intn(len(top.items))
+					inner := &bodySpec{op: "cont", items: append([]itemSpec{}, top.items[:n]...)}
+					top.items = append([]itemSpec{{sid: sid(true), seq: sseq(g.Intn(2) == 0), body: inner}}, top.items[n:]...)
 				}
 				if g.Intn(10) < 7 {
 					seq &^= 1 // a container itself is usually not content-related
+				}
+				if form == 11 {
+					top = &bodySpec{op: "gz", inner: top} // the whole container gzip-packed
 				}
 			}
 			s := sid(true)
